@@ -9,7 +9,8 @@ CHECKS = {
         technique='runtime differential monitor against NumPy + icontract post-conditions on sparse helpers',
         text='Random expression programs are executed on RSOME objects and on ndarrays; every node is '
              'compared (shape, value at 3 assignments) and re-compared after later operations; '
-             'icontract post-conditions on sparse_mul/sp_matmul/sp_lmatmul/sp_trans/sv_to_csr are on. '
+             'icontract post-conditions on sparse_mul/sp_matmul/sp_lmatmul/sp_trans/sv_to_csr/add_linear/'
+             'index_array are on. '
              'Held means: no disagreement on the programs explored.',
         note='NumPy is the reference; leaves are evaluated from their own coefficient data.',
         ref='4/C05', engine='rv-differential'),
@@ -27,14 +28,19 @@ CHECKS.update({
         technique='runtime reference-model monitor: independent cutting-plane solution of the semi-infinite problem',
         text='RSOME\'s reported optimum is compared with a cutting-plane reference (HiGHS master LP over verified '
              'realisations, separation by LP/ECOS/closed form); disagreements need a witness (violated realisation, or a '
-             're-verified robustly feasible better point); status mismatch on feasible bounded models is a violation.',
+             're-verified robustly feasible better point, or - when the returned solution is feasible as returned but '
+             'beats the reference - the finite relaxation itself: verified scenarios plus a re-solved master LP over the '
+             'declared decision space); status mismatch on feasible bounded models is a violation. 12 % of the cases are '
+             'matrix-shaped models (2-D decision and random variables, weighted bilinear terms in eight array spellings) '
+             'checked against a SciPy LP.',
         note='HiGHS/ECOS in the reference are trusted; conservatism judged only with exact separation oracles.',
         ref='4/C02', engine='rv-reference'),
     'C06': dict(
         technique='runtime reference-model monitor: closed-form re-evaluation of every user constraint and the objective at the returned point',
         text='Random deterministic models over all atoms/spellings/variable types in ro and dro front ends are solved; '
-             'each user constraint and the objective are evaluated by NumPy at x.get(); a violated constraint or a '
-             'misreported objective is the witness.',
+             'each user constraint (convex atoms, cones, piecewise-linear maxof/minof constraints with numeric pieces) '
+             'and the objective are evaluated by NumPy at x.get(); a violated constraint or a misreported objective is '
+             'the witness. icontract post-condition on rso_broadcast is on.',
         note='Closed forms in rv/atoms.py define the meaning of atoms; solver tolerances 1e-6 / 2e-5.',
         ref='4/C06', engine='rv-reference'),
     'C07': dict(
@@ -108,7 +114,10 @@ CHECKS.update({
     'C17': dict(
         technique='runtime monitor: exhaustive misuse matrix + interleaved-build differential + class-state snapshots',
         text='Every misuse entry x owner/foreign front end must raise before a program compiles and leave the owner model '
-             'intact; model A alone vs with model B built/solved inside its construction must give identical programs '
+             'intact (every argument position of the multi-argument atoms, algebra on bi-affine expressions and rules, '
+             'convex-vs-foreign comparisons); a refusal that is not a model check (dimension errors, refusal only at '
+             'compile time) is re-tried over 57 size combinations of the two models so that it cannot be an accident of '
+             'sizes; model A alone vs with model B built/solved inside its construction must give identical programs '
              'and optima; class-level state must not change.',
         note='The misuse table is a sample of all possible misuse.',
         ref='4/C17', engine='rv-state'),
@@ -133,8 +142,10 @@ CHECKS.update({
     'C12': dict(
         technique='runtime reference-model monitor on pinned models: every query API compared with NumPy',
         text='Models whose solution is known by construction (equalities / robust equalities / singleton supports per '
-             'event); model.get, x.get, x(), slices, affine/convex/bi-affine calls with assign(), rule coefficients with NaN '
-             'pattern, per-scenario labelling are compared with NumPy values.',
+             'event); model.get, x.get, x(), slices, affine/convex/bi-affine calls with assign() (random mixes of '
+             'decision, additive-random, product and constant terms, every subset of the random variables assigned), '
+             'rules declared as vectors or matrices (coefficients with NaN pattern, .T, rows, sums), per-scenario '
+             'labelling are compared with NumPy values.',
         note='Pinning determines the solution uniquely; solver accuracy 1e-6 on tiny programs.',
         ref='4/C12', engine='rv-reference'),
     'C13': dict(
@@ -149,7 +160,10 @@ CHECKS.update({
         technique='runtime metamorphic monitor: base model vs rewritten models, all really solved',
         text='min f <-> -max -f, declaration/term/row order, a<=b <-> -b<=-a <-> b>=a incl. reflected ndarray, == <-> two '
              'inequalities, bounds as objects/rows/inf-norm/abs/loops, rescaling, set argument shapes, operand order, ro <-> '
-             'single-scenario dro, ro <-> dro front end; optima must agree.',
+             'single-scenario dro, ro <-> dro front end, nested collections where the API flattens them; optima must '
+             'agree. 20 % of the cases are matrix-shaped models (bounds of every broadcastable shape in seven spellings, '
+             'weighted bilinear terms in eight array spellings) that are also compared with a SciPy reference LP. '
+             'icontract post-condition on flat() is on.',
         note='Same interface for a base model and its rewrites.',
         ref='4/C15', engine='rv-differential'),
 })
